@@ -327,3 +327,11 @@ def p2(ctx):
 
 
 RULES = [w1, w2, w3, w4, u0, pc, p1, p7, p2]
+
+
+@rule("SI", doc="slot inclusion at re-insert: the work-list handler puts a re-canonicalised e-node back only after slots(class) ⊆ slots(node) was tested true or the class was shrunk")
+def si(ctx):
+    C.slot_inclusion(ctx, ctx.lib())
+
+
+RULES.append(si)
